@@ -163,7 +163,7 @@ func RandStrBody(r *rand.Rand, q byte) string {
 	return sb.String()
 }
 
-var tplPieces = []string{"a", "t", " ", "  ", "\t", "\n", " \n", "  \n", "\t\n", "\n\n", "\n  ", "\\`", "\\\\", "\\n", "\\t", "\\$", "\\${", "$", "{", "}", "$ {", "\"", "'", "//", "/*", ";",
+var tplPieces = []string{"a", "t", " ", "  ", "\t", "\n", "\r", "\r\n", " \r", " \n", "  \n", "\t\n", "\n\n", "\n  ", "\\`", "\\\\", "\\n", "\\t", "\\$", "\\${", "$", "{", "}", "$ {", "\"", "'", "//", "/*", ";",
 	"é", "😀", "\\x41", "\\u0041", "\\u{41}", "\\\n", "x y", "let a = 1;", "(", "[", "0"}
 
 // RandTplBody returns the body of a backtick string without substitutions (never contains an unescaped "${" or backtick).
